@@ -59,8 +59,9 @@ const settleMax = 10 * time.Second
 // ---- servers ----
 
 type srv struct {
-	s  *server.Server
-	ds storage.OpenFGADatastore
+	s    *server.Server
+	ds   storage.OpenFGADatastore // the raw memory backend (set-up writes go here)
+	acct *acctDS                  // what the server reads through: every iterator is accounted for
 }
 
 var (
@@ -75,8 +76,14 @@ func getServer(cfg string) *srv {
 		return s
 	}
 	ds := memory.New()
-	opts := []server.OpenFGAServiceV1Option{server.WithDatastore(ds)}
+	ac := newAcct(ds)
+	opts := []server.OpenFGAServiceV1Option{server.WithDatastore(ac)}
 	switch cfg {
+	case "cut":
+		// tiny result limits: the collectors stop reading long before the expansion is through
+		opts = append(opts, server.WithListUsersMaxResults(3), server.WithListObjectsMaxResults(3))
+	case "opt":
+		opts = append(opts, server.WithExperimentals("enable-check-optimizations", "enable-list-objects-optimizations"))
 	case "b1":
 		opts = append(opts, server.WithResolveNodeBreadthLimit(1))
 	case "v2":
@@ -88,7 +95,7 @@ func getServer(cfg string) *srv {
 			server.WithCheckIteratorCacheEnabled(true), server.WithCheckIteratorCacheTTL(2*time.Second),
 			server.WithListObjectsIteratorCacheEnabled(true), server.WithListObjectsIteratorCacheTTL(2*time.Second))
 	}
-	s := &srv{s: server.MustNewServerWithOpts(opts...), ds: ds}
+	s := &srv{s: server.MustNewServerWithOpts(opts...), ds: ds, acct: ac}
 	servers[cfg] = s
 	return s
 }
@@ -146,6 +153,16 @@ func familyTuples(family string, p1, p2 int) []fga.Tuple {
 		add(fmt.Sprintf("group:f%d", w-1), "member", "user:m")
 		add("doc:1", "parent", "folder:r")
 		add("folder:r", "viewer", "group:f0#member")
+	case "wide":
+		// far more parents / usersets than the breadth limit, and the user is allowed through every one of them:
+		// the consumer of the dispatch pipeline leaves after the first outcome while the producer still has hundreds to send
+		w := p1
+		for i := 0; i < w; i++ {
+			add("doc:1", "parent", fmt.Sprintf("folder:w%d", i))
+			add(fmt.Sprintf("folder:w%d", i), "viewer", "user:m")
+			add(fmt.Sprintf("group:w%d", i), "member", "user:m")
+			add("doc:1", "viewer", fmt.Sprintf("group:w%d#member", i))
+		}
 	case "tree":
 		b, d := p1, p2
 		for l := 0; l+1 < d; l++ {
@@ -237,13 +254,23 @@ type request struct {
 	typ            string
 	ctx            []fga.KV
 	batch          []fga.Req
+	ctxT           []fga.Tuple // contextual tuples
+	fault          string      // "" | "err" | "cancel": injected on the faultAt-th Next of the datastore iterators
+	faultAt        int
+}
+
+func (rq request) contextual() *openfgav1.ContextualTupleKeys {
+	if len(rq.ctxT) == 0 {
+		return nil
+	}
+	return &openfgav1.ContextualTupleKeys{TupleKeys: fga.Keys(rq.ctxT)}
 }
 
 func call(ctx context.Context, sv *srv, storeID string, rq request) string {
 	s := sv.s
 	switch rq.rpc {
 	case "check":
-		r, err := s.Check(ctx, &openfgav1.CheckRequest{StoreId: storeID, TupleKey: &openfgav1.CheckRequestTupleKey{Object: rq.obj, Relation: rq.rel, User: rq.user}, Context: fga.CtxStruct(rq.ctx)})
+		r, err := s.Check(ctx, &openfgav1.CheckRequest{StoreId: storeID, TupleKey: &openfgav1.CheckRequestTupleKey{Object: rq.obj, Relation: rq.rel, User: rq.user}, Context: fga.CtxStruct(rq.ctx), ContextualTuples: rq.contextual()})
 		if err != nil {
 			return classify(err)
 		}
@@ -255,7 +282,7 @@ func call(ctx context.Context, sv *srv, storeID string, rq request) string {
 		br := &openfgav1.BatchCheckRequest{StoreId: storeID}
 		for i, q := range rq.batch {
 			br.Checks = append(br.Checks, &openfgav1.BatchCheckItem{TupleKey: &openfgav1.CheckRequestTupleKey{Object: q.Obj, Relation: q.Rel, User: q.User},
-				Context: fga.CtxStruct(q.Ctx), CorrelationId: strconv.Itoa(i)})
+				Context: fga.CtxStruct(q.Ctx), CorrelationId: strconv.Itoa(i), ContextualTuples: rq.contextual()})
 		}
 		r, err := s.BatchCheck(ctx, br)
 		if err != nil {
@@ -263,7 +290,7 @@ func call(ctx context.Context, sv *srv, storeID string, rq request) string {
 		}
 		return fmt.Sprintf("ok:n%d", len(r.GetResult()))
 	case "listobjects":
-		r, err := s.ListObjects(ctx, &openfgav1.ListObjectsRequest{StoreId: storeID, Type: rq.typ, Relation: rq.rel, User: rq.user, Context: fga.CtxStruct(rq.ctx)})
+		r, err := s.ListObjects(ctx, &openfgav1.ListObjectsRequest{StoreId: storeID, Type: rq.typ, Relation: rq.rel, User: rq.user, Context: fga.CtxStruct(rq.ctx), ContextualTuples: rq.contextual()})
 		if err != nil {
 			return classify(err)
 		}
@@ -271,7 +298,7 @@ func call(ctx context.Context, sv *srv, storeID string, rq request) string {
 		return "ok:list"
 	case "streamed":
 		col := &collector{ctx: ctx}
-		if err := s.StreamedListObjects(&openfgav1.StreamedListObjectsRequest{StoreId: storeID, Type: rq.typ, Relation: rq.rel, User: rq.user, Context: fga.CtxStruct(rq.ctx)}, col); err != nil {
+		if err := s.StreamedListObjects(&openfgav1.StreamedListObjectsRequest{StoreId: storeID, Type: rq.typ, Relation: rq.rel, User: rq.user, Context: fga.CtxStruct(rq.ctx), ContextualTuples: rq.contextual()}, col); err != nil {
 			return classify(err)
 		}
 		return "ok:stream"
@@ -284,11 +311,17 @@ func call(ctx context.Context, sv *srv, storeID string, rq request) string {
 		}
 		return "ok:users"
 	case "expand":
-		_, err := s.Expand(ctx, &openfgav1.ExpandRequest{StoreId: storeID, TupleKey: &openfgav1.ExpandRequestTupleKey{Object: rq.obj, Relation: rq.rel}})
+		_, err := s.Expand(ctx, &openfgav1.ExpandRequest{StoreId: storeID, TupleKey: &openfgav1.ExpandRequestTupleKey{Object: rq.obj, Relation: rq.rel}, ContextualTuples: rq.contextual()})
 		if err != nil {
 			return classify(err)
 		}
 		return "ok:tree"
+	case "read":
+		_, err := s.Read(ctx, &openfgav1.ReadRequest{StoreId: storeID, TupleKey: &openfgav1.ReadRequestTupleKey{Object: rq.obj, Relation: rq.rel}})
+		if err != nil {
+			return classify(err)
+		}
+		return "ok:page"
 	}
 	return "badrpc"
 }
@@ -377,6 +410,7 @@ func runOnce(sv *srv, storeID string, rq request, mode string, ms int) outcome {
 		at  time.Time
 	}
 	done := make(chan fin, 1)
+	sv.acct.arm(rq.fault, rq.faultAt, cancel)
 	start := time.Now()
 	go func() {
 		defer func() {
@@ -431,6 +465,7 @@ func runOnce(sv *srv, storeID string, rq request, mode string, ms int) outcome {
 		timer.Stop()
 	}
 	cancel() // the transport cancels the request context once the handler has returned
+	sv.acct.arm("", 0, nil)
 	o.g1 = waitBack(g0, settleMax)
 	return o
 }
@@ -485,7 +520,30 @@ func exec(line string, st *hx.Stats) string {
 	var tuples []fga.Tuple
 	var rq request
 	rq.rpc = rpc
-	if family == "rand" {
+	repeats := 1
+	if family == "res" {
+		// resources family: explicit tuples, contextual tuples and request; p2 = fault spec, variant = repetitions
+		tuples = fga.DecodeTuples(t, "tuples")
+		rq.ctxT = fga.DecodeTuples(t, "ctx")
+		q := fga.DecodeReq(t)
+		rq.obj, rq.rel, rq.user, rq.ctx = q.Obj, q.Rel, q.User, q.Ctx
+		rq.typ = fga.TypeOf(q.Obj)
+		for _, rel := range []string{q.Rel, "viewer", "viag", "via", "both"} {
+			rq.batch = append(rq.batch, fga.Req{Obj: q.Obj, Rel: rel, User: q.User})
+		}
+		switch {
+		case strings.HasPrefix(p2s, "err"):
+			rq.fault = "err"
+			rq.faultAt, _ = strconv.Atoi(p2s[3:])
+		case strings.HasPrefix(p2s, "cancel"):
+			rq.fault = "cancel"
+			rq.faultAt, _ = strconv.Atoi(p2s[6:])
+		}
+		repeats = variant
+		if repeats < 1 {
+			repeats = 1
+		}
+	} else if family == "rand" {
 		tuples = fga.DecodeTuples(t, "tuples")
 		q := fga.DecodeReq(t)
 		rq.obj, rq.rel, rq.user, rq.ctx = q.Obj, q.Rel, q.User, q.Ctx
@@ -512,8 +570,14 @@ func exec(line string, st *hx.Stats) string {
 		for i := 0; i < 6; i++ {
 			rq.batch = append(rq.batch, fga.Req{Obj: "doc:1", Rel: rels[(variant+i)%len(rels)], User: users[i%len(users)]})
 		}
+		if family == "wide" {
+			repeats = 3
+		}
 	}
 	dataKey := fmt.Sprintf("%s/%d/%d", family, p1, p2)
+	if family == "res" {
+		dataKey = fmt.Sprintf("res/%d", p1)
+	}
 	if family == "rand" {
 		dataKey = fmt.Sprintf("rand/%d/%s", p1, p2s)
 	}
@@ -530,7 +594,17 @@ func exec(line string, st *hx.Stats) string {
 		st.Inc("skipped-known-hang-shape")
 		return "res=skipped t=skipped g=skipped dup=1"
 	}
+	sv.acct.forget()
+	opened0 := sv.acct.openedTotal()
 	o := runOnce(sv, storeID, rq, mode, ms)
+	// the planner picks the strategy of a userset / tuple-to-userset by sampling: the same request is repeated so that
+	// every offered strategy (default, weight2, recursive) gets its turn; growth of the census or an open iterator in
+	// any of the runs counts
+	for k := 1; k < repeats && o.t == "ontime" && o.g1 <= o.g0; k++ {
+		o2 := runOnce(sv, storeID, rq, mode, ms)
+		o2.res = o.res
+		o = o2
+	}
 	g := "ok"
 	extra := ""
 	if o.t == "hang" {
@@ -562,7 +636,20 @@ func exec(line string, st *hx.Stats) string {
 		}
 	}
 	st.Inc("res:" + o.res)
-	return fmt.Sprintf("res=%s t=%s g=%s dup=%d%s", o.res, o.t, g, dup, extra)
+	// iterator accounting: everything the datastore handed out since the case started must have been stopped
+	it := "ok"
+	if n := sv.acct.waitClosed(3 * time.Second); n > 0 {
+		it = fmt.Sprintf("open:%d:%s", n, sv.acct.openKinds())
+		sv.acct.forget()
+		st.Inc("iterator-left-open")
+	}
+	if sv.acct.openedTotal() > opened0 {
+		st.Inc("cases-with-iterators")
+	}
+	if rq.fault != "" {
+		st.Inc("fault:" + rq.fault)
+	}
+	return fmt.Sprintf("res=%s t=%s g=%s it=%s dup=%d%s", o.res, o.t, g, it, dup, extra)
 }
 
 // dupThis: some relation has two direct-assignment leaves in its rewrite and a userset restriction on itself
@@ -594,9 +681,198 @@ func dupThis(m *fga.Model) bool {
 
 // ---- generator ----
 
+// ---- the resources family ----
+
+// resModel: every Check strategy and every ListUsers / Expand node kind over small relations
+func resModel() *fga.Model {
+	u := fga.Restr{Typ: "user"}
+	uw := fga.Restr{Typ: "user", Wild: true}
+	gm := fga.Restr{Typ: "group", Rel: "member"}
+	tm := fga.Restr{Typ: "team", Rel: "member"}
+	op := func(kind string, kids ...*fga.Rewrite) *fga.Rewrite { return &fga.Rewrite{Kind: kind, Kids: kids} }
+	return &fga.Model{Types: []*fga.TypeDef{
+		{Name: "user"},
+		{Name: "group", Rels: []*fga.RelDef{{Name: "member", Rewrite: this(), Restrs: []fga.Restr{u, uw}}}},
+		{Name: "team", Rels: []*fga.RelDef{{Name: "member", Rewrite: this(), Restrs: []fga.Restr{u, tm}}}},
+		{Name: "folder", Rels: []*fga.RelDef{{Name: "viewer", Rewrite: this(), Restrs: []fga.Restr{u, gm}}}},
+		{Name: "doc", Rels: []*fga.RelDef{
+			{Name: "parent", Rewrite: this(), Restrs: []fga.Restr{{Typ: "folder"}}},
+			{Name: "gparent", Rewrite: this(), Restrs: []fga.Restr{{Typ: "group"}}},
+			{Name: "viewer", Rewrite: this(), Restrs: []fga.Restr{gm}},  // userset of weight 2: weight2 fast path
+			{Name: "tviewer", Rewrite: this(), Restrs: []fga.Restr{tm}}, // recursive userset: recursive fast path
+			{Name: "viag", Rewrite: ttu("gparent", "member")},           // tuple-to-userset of weight 2
+			{Name: "via", Rewrite: ttu("parent", "viewer")},             // tuple-to-userset of weight 3: dispatching resolver
+			{Name: "allowed", Rewrite: this(), Restrs: []fga.Restr{u, uw}},
+			{Name: "editor", Rewrite: this(), Restrs: []fga.Restr{u}},
+			{Name: "both", Rewrite: op("inter", cu("allowed"), cu("editor"))},
+			{Name: "either", Rewrite: op("union", cu("allowed"), cu("editor"))},
+			{Name: "minus", Rewrite: op("diff", cu("allowed"), cu("editor"))},
+			{Name: "mix", Rewrite: op("union", cu("viewer"), cu("viag"), cu("via"), cu("both"))},
+		}},
+	}}
+}
+
+type resShape struct {
+	dupEnd   int  // 0 none, 1 user + wildcard on the LAST group, 2 on the first, 3 in the middle
+	ctxDup   int  // 0 none, 1 contextual tuple repeats the LAST stored membership, 2 the first, 3 a new one
+	hit      bool // the request's user is allowed (evaluation may stop early) or not (every iterator is drained)
+	groups   int
+	parents  int
+	many     int // users on allowed / editor (ListUsers cut-off needs more than 2 x max-results)
+	teamLen  int
+	wildcard bool // doc:1#allowed@user:*
+}
+
+func resWorld(sh resShape) ([]fga.Tuple, []fga.Tuple) {
+	var ts, cx []fga.Tuple
+	add := func(o, r, u string) { ts = append(ts, fga.Tuple{Obj: o, Rel: r, User: u}) }
+	name := func(i int) string { return fmt.Sprintf("group:g%02d", i) }
+	last := sh.groups - 1
+	// anne is a member of every group but g01 (the one the document points at when the answer must be "no")
+	for i := 0; i < sh.groups; i++ {
+		if i != 1 || sh.hit {
+			add(name(i), "member", "user:anne")
+		}
+	}
+	switch sh.dupEnd {
+	case 1:
+		add(name(last), "member", "user:*")
+	case 2:
+		add(name(0), "member", "user:*")
+	case 3:
+		add(name(last/2), "member", "user:*")
+	}
+	switch sh.ctxDup {
+	case 1:
+		cx = append(cx, fga.Tuple{Obj: name(last), Rel: "member", User: "user:anne"})
+	case 2:
+		cx = append(cx, fga.Tuple{Obj: name(0), Rel: "member", User: "user:anne"})
+	case 3:
+		cx = append(cx, fga.Tuple{Obj: "group:zz", Rel: "member", User: "user:anne"})
+	}
+	add("doc:1", "viewer", name(1)+"#member")
+	add("doc:1", "gparent", name(1))
+	// teams: a chain t0 <- t1 <- … ; anne sits at the far end (hit) or nowhere
+	for i := 0; i+1 < sh.teamLen; i++ {
+		add(fmt.Sprintf("team:t%d", i), "member", fmt.Sprintf("team:t%d#member", i+1))
+	}
+	if sh.hit {
+		add(fmt.Sprintf("team:t%d", sh.teamLen-1), "member", "user:anne")
+	} else {
+		add("team:other", "member", "user:anne")
+	}
+	add("doc:1", "tviewer", "team:t0#member")
+	for i := 0; i < sh.parents; i++ {
+		f := fmt.Sprintf("folder:p%02d", i)
+		add("doc:1", "parent", f)
+		if sh.hit || i%2 == 1 {
+			add(f, "viewer", name(0)+"#member")
+		}
+		if sh.hit && i == 0 {
+			add(f, "viewer", "user:anne")
+		}
+	}
+	for i := 0; i < sh.many; i++ {
+		add("doc:1", "allowed", fmt.Sprintf("user:u%02d", i))
+		if i%5 != 4 {
+			add("doc:1", "editor", fmt.Sprintf("user:u%02d", i))
+		}
+	}
+	if sh.hit {
+		add("doc:1", "allowed", "user:anne")
+		add("doc:1", "editor", "user:anne")
+	}
+	if sh.wildcard {
+		add("doc:1", "allowed", "user:*")
+	}
+	return ts, cx
+}
+
+var resEnc = ""
+
+func resLine(cfg string, seed int, fault, rpc string, repeats int, mode string, ms int, sh resShape, rel, user string) string {
+	if resEnc == "" {
+		resEnc = resModel().Encode()
+	}
+	ts, cx := resWorld(sh)
+	rq := fga.Req{Obj: "doc:1", Rel: rel, User: user}
+	return fmt.Sprintf("c20 %s res %d %s %s %d %s %d %s %s %s %s", cfg, seed, fault, rpc, repeats, mode, ms, resEnc,
+		fga.EncodeTuples("tuples", ts), fga.EncodeTuples("ctx", cx), rq.Encode())
+}
+
+// craftedRes: the shapes that matter, in every run
+func craftedRes(bigEnc string) []string {
+	base := resShape{groups: 4, parents: 3, many: 25, teamLen: 3}
+	end := base
+	end.dupEnd = 1
+	ctxEnd := base
+	ctxEnd.ctxDup = 1
+	hit := base
+	hit.hit = true
+	var out []string
+	k := 0
+	next := func() int { k++; return 900000 + k }
+	for _, cfg := range []string{"v1", "v2"} {
+		// a sorted read that ENDS on a duplicate object; nobody has access, so every iterator is drained
+		for _, rel := range []string{"viewer", "viag"} {
+			out = append(out, resLine(cfg, next(), "-", "check", 8, "none", 0, end, rel, "user:anne"))
+			out = append(out, resLine(cfg, next(), "-", "check", 8, "none", 0, ctxEnd, rel, "user:anne"))
+		}
+		out = append(out, resLine(cfg, next(), "-", "check", 4, "none", 0, end, "tviewer", "user:anne"))
+		out = append(out, resLine(cfg, next(), "-", "batch", 3, "none", 0, end, "mix", "user:anne"))
+	}
+	// collectors that stop reading at max-results while the expansion has many more results
+	for _, rel := range []string{"both", "either", "minus", "mix"} {
+		out = append(out, resLine("cut", next(), "-", "listusers", 2, "none", 0, hit, rel, "user:anne"))
+	}
+	out = append(out, resLine("cut", next(), "-", "listobjects", 2, "none", 0, hit, "mix", "user:anne"))
+	// a fault in the middle of a streamed read
+	for _, f := range []string{"err1", "err2", "cancel2", "err3"} {
+		out = append(out, resLine("v1", next(), f, "expand", 1, "none", 0, base, "via", "user:anne"))
+		out = append(out, resLine("v1", next(), f, "expand", 1, "none", 0, base, "mix", "user:anne"))
+		out = append(out, resLine("v1", next(), f, "check", 2, "none", 0, base, "via", "user:anne"))
+		out = append(out, resLine("v1", next(), f, "listusers", 1, "none", 0, hit, "mix", "user:anne"))
+		out = append(out, resLine("v1", next(), f, "listobjects", 1, "none", 0, hit, "mix", "user:anne"))
+	}
+	out = append(out, resLine("pipe", next(), "err2", "listobjects", 1, "none", 0, hit, "mix", "user:anne"))
+	out = append(out, resLine("v1", next(), "-", "read", 1, "none", 0, base, "parent", "user:anne"))
+	// wide fan-out with an early hit and NO deadline: tuple-to-userset (variant 3 = via) and userset (variant 0 = viewer)
+	for _, cfg := range []string{"v1", "cache"} {
+		out = append(out, fmt.Sprintf("c20 %s wide 300 - check 3 none 0 %s", cfg, bigEnc))
+		out = append(out, fmt.Sprintf("c20 %s wide 300 - check 0 none 0 %s", cfg, bigEnc))
+	}
+	return out
+}
+
+func genRes(c *hx.Rand, cfgs []string) (string, string) {
+	sh := resShape{groups: 2 + c.Intn(5), parents: 1 + c.Intn(6), many: hx.Pick(c, []int{0, 3, 7, 8, 25}), teamLen: 1 + c.Intn(4),
+		dupEnd: hx.Pick(c, []int{0, 1, 1, 2, 3}), ctxDup: hx.Pick(c, []int{0, 0, 1, 1, 2, 3}), hit: c.Chance(1, 3), wildcard: c.Chance(1, 4)}
+	cfg := hx.Pick(c, append([]string{"cut", "cut", "opt"}, cfgs...))
+	rpc := hx.Pick(c, []string{"check", "check", "check", "batch", "listobjects", "streamed", "listusers", "listusers", "expand", "expand", "read"})
+	rel := hx.Pick(c, []string{"viewer", "viewer", "viag", "tviewer", "via", "both", "either", "minus", "mix"})
+	user := hx.Pick(c, []string{"user:anne", "user:anne", "user:bob", "user:u03"})
+	fault := "-"
+	if c.Chance(2, 5) {
+		fault = hx.Pick(c, []string{"err", "err", "cancel"}) + strconv.Itoa(1+c.Intn(5))
+	}
+	repeats := 2
+	if rpc == "check" && fault == "-" {
+		repeats = 6
+	}
+	mode, ms := "none", 0
+	if c.Chance(1, 4) {
+		mode, ms = pickMode(c, true)
+	}
+	return resLine(cfg, 1000+c.Intn(1<<20), fault, rpc, repeats, mode, ms, sh, rel, user), rpc
+}
+
 func gen(r *hx.Rand, n int, tier string, emit func(string), st *hx.Stats) {
 	big := bigModel()
 	bigEnc := big.Encode()
+	for _, l := range craftedRes(bigEnc) {
+		emit(l)
+		st.Inc("crafted-resources")
+	}
 	maxRing, maxFan := 60, 300
 	treeB, treeD := 4, 9
 	if tier == "thorough" {
@@ -615,7 +891,13 @@ func gen(r *hx.Rand, n int, tier string, emit func(string), st *hx.Stats) {
 		p2 := "-"
 		tail := ""
 		heavy := false
-		switch c.Intn(8) {
+		switch c.Intn(10) {
+		case 8, 9:
+			l, rrpc := genRes(c, cfgs)
+			emit(l)
+			st.Inc("res")
+			st.Inc("rpc:" + rrpc)
+			continue
 		case 0, 1:
 			family = "ring"
 			p1 = hx.Pick(c, []int{2, 3, 7, 24, 25, 26, maxRing / 2, maxRing})
